@@ -301,6 +301,13 @@ def step (w : World) (ws : List String) : World × List String :=
       emitApi w ci x (apiList x.cfg (bytesOfHex p) (vs.map (valOfWords ty)) true)
   | "SM" :: c :: p :: vs => withCtx c fun ci x =>
       emitApi w ci x (apiSetmulti orc w.k x.cfg (bytesOfHex p) (vs.map optOfHex))
+  | ["SOA", c, p] => withCtx c fun ci x =>
+      -- cfg_setopt(cfg, opt, <the string the option holds now>): the argument aliases what the call releases
+      let cur : Option Bytes :=
+        match (getoptPath x.cfg (bytesOfHex p)).ref.bind x.cfg.getOpt with
+        | some o => (match o.ty, o.vals.head? with | .str, some (.str s) => s | _, _ => none)
+        | none => none
+      emitApi w ci x (apiSetopt orc w.k x.cfg (bytesOfHex p) cur)
   | ["SO", c, p, v] => withCtx c fun ci x =>
       match w.fault, (getoptPath x.cfg (bytesOfHex p)).ref, (getoptPath x.cfg (bytesOfHex p)).ref.bind x.cfg.getOpt with
       | some _, some r, some o =>
